@@ -9,19 +9,28 @@ package main
 // Whether a text is acceptable is NOT decided here: the Lean driver decides it from the bytes.
 
 import (
+	"context"
 	"fmt"
 	"os"
 	"path/filepath"
 	"sort"
 	"strconv"
 	"strings"
+	"time"
 
 	"github.com/deckhouse/deckhouse/pkg/log"
 
 	"github.com/flant/shell-operator/pkg/hook"
+	bctx "github.com/flant/shell-operator/pkg/hook/binding_context"
 	"github.com/flant/shell-operator/pkg/hook/controller"
+	"github.com/flant/shell-operator/pkg/hook/task_metadata"
 	htypes "github.com/flant/shell-operator/pkg/hook/types"
+	metricstorage "github.com/flant/shell-operator/pkg/metric_storage"
 	"github.com/flant/shell-operator/pkg/metric_storage/operation"
+	"github.com/flant/shell-operator/pkg/metric_storage/vault"
+	shell_operator "github.com/flant/shell-operator/pkg/shell-operator"
+	"github.com/flant/shell-operator/pkg/task"
+	"github.com/flant/shell-operator/pkg/task/queue"
 )
 
 // c16Num spells the value h/2 as a JSON number in one of several ways (all exact).
@@ -212,6 +221,91 @@ func (x *c16Runner) hookObj() (*hook.Hook, error) {
 	return h, nil
 }
 
+// ---- the whole handler: ShellOperator.taskHandler -> taskHandleHookRun -> handleRunHook -> Hook.Run ----
+
+// c16OpHooks are the hooks of an operator world (the hook label is the hook's name = its file name).
+var c16OpHooks = []string{"h1.sh", "h2.sh", "h3.sh", "h4.sh"}
+
+const c16OpScript = `#!/bin/bash
+if [[ "$1" == "--config" ]]; then
+  echo '{"configVersion":"v1","onStartup":1}'
+  exit 0
+fi
+cat "%[1]s/in/$(basename "$0").metrics" > "$METRICS_PATH" && : > "%[1]s/in/ran"
+`
+
+// newC16OpWorld: a ShellOperator assembled from the real pieces (real hook manager that loads four bash
+// hooks, real metric storages); the world's storage is the operator's HookMetricStorage, so typed batches
+// (SendBatch) and hook executions (the real task handler) meet in one registry.
+func newC16OpWorld(r *Run, c *Case) (*c16World, error) {
+	w := &c16World{in: NewInterner(), c: c, owner: map[string]string{}, gfam: map[string]string{}, ushape: map[string]string{}}
+	dir := filepath.Join(r.Scratch, fmt.Sprintf("c16-%d", c.Idx))
+	for _, d := range []string{"hooks", "tmp", "in"} {
+		if err := os.MkdirAll(filepath.Join(dir, d), 0o755); err != nil {
+			return nil, err
+		}
+	}
+	for _, h := range c16OpHooks {
+		if err := writeScript(filepath.Join(dir, "hooks", h), []byte(fmt.Sprintf(c16OpScript, dir)), 0o755); err != nil {
+			return nil, err
+		}
+	}
+	ctx, cancel := context.WithCancel(context.Background())
+	nop := log.NewNop()
+	op := shell_operator.NewShellOperator(ctx, shell_operator.WithLogger(nop))
+	op.MetricStorage = metricstorage.NewMetricStorage(ctx, "shell_operator_", true, nop)
+	w.ms = metricstorage.NewMetricStorage(ctx, "", true, nop)
+	op.HookMetricStorage = w.ms
+	op.TaskQueues = queue.NewTaskQueueSet()
+	op.HookManager = hook.NewHookManager(&hook.ManagerConfig{WorkingDir: filepath.Join(dir, "hooks"), TempDir: filepath.Join(dir, "tmp"), Logger: nop})
+	var initErr error
+	for try := 0; try < 50; try++ { // ETXTBSY, see c12.go
+		if initErr = op.HookManager.Init(); initErr == nil || !strings.Contains(initErr.Error(), "text file busy") {
+			break
+		}
+		time.Sleep(20 * time.Millisecond)
+	}
+	if initErr != nil {
+		cancel()
+		return nil, initErr
+	}
+	w.gate = &c16Gate{inner: w.ms.Registry}
+	w.ms.Registerer = w.gate
+	if gv, ok := w.ms.Grouped().(*vault.GroupedVault); ok {
+		gv.SetRegisterer(w.gate)
+	}
+	w.in.Id("hook")
+	w.op, w.opDir, w.cancel = op, dir, cancel
+	w.run = &c16Runner{dir: dir}
+	return w, nil
+}
+
+// runHookTask executes a HookRun task of the hook with the real queue handler; the hook writes `text` to
+// its metrics file. Returns 0 when the handler reported Success.
+func (w *c16World) runHookTask(hookName, text string) (int, string) {
+	in := filepath.Join(w.opDir, "in")
+	_ = os.Remove(filepath.Join(in, "ran"))
+	if err := os.WriteFile(filepath.Join(in, hookName+".metrics"), []byte(text), 0o644); err != nil {
+		return 0, "cannot write scratch file"
+	}
+	bc := bctx.BindingContext{Binding: "onStartup"}
+	bc.Metadata.BindingType = htypes.OnStartup
+	meta := task_metadata.HookMetadata{HookName: hookName, Binding: "onStartup", BindingType: htypes.OnStartup, BindingContext: []bctx.BindingContext{bc}}
+	t := task.NewTask(task_metadata.HookRun).WithMetadata(meta).WithQueueName("main")
+	t.WithQueuedAt(time.Now())
+	status := Catch(func() string { return string(w.op.VerifTaskHandler()(t).Status) })
+	if _, err := os.Stat(filepath.Join(in, "ran")); err != nil {
+		return 0, "the hook process did not run to its end (status " + status + ")"
+	}
+	switch status {
+	case "Success":
+		return 0, ""
+	case "Fail":
+		return 1, ""
+	}
+	return 2, status
+}
+
 // sendText: the batch `ops` spelled as `text` goes the way a hook's metrics file goes. via = "run": a real
 // bash hook writes the text to $METRICS_PATH and Hook.Run reads it; via = "file": MetricOperationsFromFile
 // (what Hook.Run calls) on a file with this text. Then handleRunHook's step: no SendBatch after a reading
@@ -220,7 +314,19 @@ func (w *c16World) sendText(r *Run, hookName string, ops []c16Op, text, via stri
 	x := w.runner(r)
 	var parsed []operation.MetricOperation
 	var rerr error
+	handled, hcode := false, 0
 	switch via {
+	case "operator":
+		code, problem := w.runHookTask(hookName, text)
+		if problem != "" && code != 2 {
+			w.c.Inconcl = problem
+			return
+		}
+		if code == 2 {
+			w.c.Op("tsend-operator", problem)
+			return
+		}
+		handled, hcode = true, code
 	case "run":
 		h, err := x.hookObj()
 		if err != nil {
@@ -271,7 +377,9 @@ func (w *c16World) sendText(r *Run, hookName string, ops []c16Op, text, via stri
 	}
 	ans := Catch(func() string {
 		code := 0
-		if rerr != nil {
+		if handled {
+			code = hcode // the real handler did both steps
+		} else if rerr != nil {
 			code = 1 // Hook.Run: "got bad metrics"; handleRunHook returns before SendBatch
 		} else if e := w.ms.SendBatch(parsed, map[string]string{"hook": hookName}); e != nil {
 			code = 1
